@@ -187,11 +187,16 @@ REQUIRED_KEYS_SOFT_OK = {
     ("images.Image", "additional_variants"),
     ("treeinfo.Release", "short"), ("treeinfo.Release", "is_layered"),
     ("treeinfo.Stage2", "mainimage"), ("treeinfo.Stage2", "instimage"),
-    ("treeinfo.Media", "discnum"), ("treeinfo.Media", "totaldiscs"),
     ("treeinfo.Variant", "addons"), ("treeinfo.Variants", "variants"),
     # C07: "for treeinfo, sections with a documented legacy fallback - the header itself, [tree] - are not 'required'"
     ("treeinfo.Header", "version"), ("treeinfo.Tree", "build_timestamp"), ("treeinfo.Tree", "arch"),
     ("treeinfo.Tree", "platforms"),
+}
+
+
+# keys of an *optional section*: the section may be absent as a whole (has_section guard), but inside it the key is mandatory
+REQUIRED_IN_OPTIONAL_SECTION = {
+    ("treeinfo.Media", "discnum"), ("treeinfo.Media", "totaldiscs"),
 }
 
 
